@@ -45,6 +45,14 @@ class _Break(Exception):
     pass
 
 
+class ProgramRaised(Exception):
+    """The interpreted repository code itself raised (KeyError/IndexError on a container, ...) on this abstract input."""
+
+    def __init__(self, exc, node=None):
+        super().__init__("%s: %s" % (type(exc).__name__, exc))
+        self.exc, self.node = exc, node
+
+
 class RaisedInModel(Exception):
     """The interpreted code executed a `raise` statement."""
 
@@ -80,6 +88,12 @@ class Evaluator:
     def subscript(self, node, base, index):
         try:
             return base[index]
+        except (KeyError, IndexError) as e:
+            if isinstance(base, (dict, list, tuple, str)) or isinstance(base, Model):
+                raise ProgramRaised(e, node)
+            raise Unsupported("subscript %s: %s" % (ast.unparse(node), e))
+        except (Unsupported, ProgramRaised):
+            raise
         except Exception as e:
             raise Unsupported("subscript %s: %s" % (ast.unparse(node), e))
 
